@@ -1,0 +1,7 @@
+//go:build !verif
+
+package pool
+
+func verifOnGet(Buffer) {}
+
+func verifOnRelease(Buffer) bool { return false }
